@@ -546,11 +546,13 @@ class Deb822ParsedTokenList(Generic[VE, ST],
         if error_token:
             # _print_ast(deb822_file)
             raise ValueError("Syntax error in new field value for " + field_name)
-        paragraphs = list(deb822_file)
-        if len(paragraphs) != 1 or paragraphs[0].kvpair_count != 1:
-            # e.g. a value with a line that reads as another field
+        parts = list(deb822_file.iter_parts())
+        if len(parts) != 1 or not isinstance(parts[0], Deb822ParagraphElement) \
+                or parts[0].kvpair_count != 1:
+            # e.g. a value with a line that reads as another field, or with
+            # a blank line (which ends the paragraph) as its last line
             raise ValueError("New value for " + field_name + " is not the value of a single field")
-        paragraph = paragraphs[0]
+        paragraph = parts[0]
         assert isinstance(paragraph, Deb822NoDuplicateFieldsParagraphElement)
         new_kvpair_element = paragraph.get_kvpair_element(field_name)
         assert new_kvpair_element is not None
@@ -2051,7 +2053,13 @@ class Deb822ParagraphElement(Deb822Element, Deb822ParagraphToStrWrapperMixin, AB
         error_token = deb822_file.find_first_error_element()
         if error_token:
             raise ValueError("Syntax error in new field value for " + field_name)
-        paragraph = next(iter(deb822_file))
+        parts = list(deb822_file.iter_parts())
+        if len(parts) != 1 or not isinstance(parts[0], Deb822ParagraphElement) \
+                or parts[0].kvpair_count != 1:
+            # e.g. a blank line (which ends the paragraph) as last line of
+            # the value: what follows it would be dropped
+            raise ValueError("New value for " + field_name + " is not the value of a single field")
+        paragraph = parts[0]
         assert isinstance(paragraph, Deb822NoDuplicateFieldsParagraphElement)
         value = paragraph.get_kvpair_element(field_name)
         assert value is not None
